@@ -71,7 +71,7 @@ def render_iri(iri, prefixes, style):
         for ns, p in prefixes.items():
             if iri.startswith(ns):
                 loc = iri[len(ns):]
-                if loc and all(c.isalnum() or c == "_" for c in loc):
+                if loc and all(c.isalnum() or c in "_:" for c in loc) and loc.isascii():
                     return "%s:%s" % (p, loc)
     return "<%s>" % iri
 
